@@ -90,7 +90,7 @@ PROPS = {
         'shrink': {},
         'assumptions': [
             "std::io::BufReader (capacity 4096: refill only when empty, bypass for reads >= capacity on an empty buffer, read_exact, read_line = read_until + UTF-8 check) is modelled, not verified; pinned by this stream",
-            "the stream delivers at least one byte per read until EOF; it never fails (Model/Body.v) or fails with ErrorKind::Interrupted at arbitrary points (Model/BodyIntr.v, C06_intr_*); other I/O errors are outside the model; the theorems quantify over leftover|stream split, segmentation, placement of interruptions and positive buffer sizes",
+            "the stream delivers at least one byte per read until EOF; it never fails (Model/Body.v) or fails with ErrorKind::Interrupted at arbitrary points (Model/BodyIntr.v, C06_intr_*); failures std does not retry (timeouts) are in Model/BodyFail.v (C07_located_is_right_*), compared call by call through the timed-out histories; what a caller that swallowed such an error is given afterwards is not judged by the property; the theorems quantify over leftover|stream split, segmentation, placement of interruptions and positive buffer sizes",
             "zero-length caller buffers are outside the theorems (FixedReader::read(&mut []) reports truncation on a non-empty remaining body)",
         ],
     },
